@@ -87,4 +87,11 @@ CHECKS = {
         note="Placements are the listed scenarios (2 collections x 2 shards at most); <= 2 deviations (3 thorough). Downstream ids come from the fake TargetAPI, which applies create events the way the writer would.",
         parts=[part("routing", "core", "reader", "TestVerifC02Routing", shards=(12, 16), budget=(150, 900), gomaxprocs=1)],
     ),
+    "C03": dict(
+        level="exploration", engine="sched",
+        technique="stateless DFS over goroutine schedules (deviation-bounded) including the computed-vs-enqueued window, on the real channel manager and TS manager",
+        text="Streams multiplexed on one downstream channel with clock skew are run through the real handlers and TS manager under every schedule within the deviation bound over the yield points that separate collecting the begin timestamp, taking the channel lock, and enqueueing the computed pack; the emitted sequence per downstream channel is checked for tick-terminated packs, monotone ticks, data strictly after earlier ticks, internal timestamp agreement and preserved per-shard order.",
+        note="Bounds: 2 streams x <= 3 packs, skew in {0,+1ms,+1s,-0.5s}, <= 2 deviations (3 thorough). The overtake defect (a pack computed earlier but enqueued later) is a recorded known finding; resume from persisted checkpoints is checked in the C05 fullstack harness.",
+        parts=[part("time", "core", "reader", "TestVerifC03Time", shards=(12, 16), budget=(150, 900), gomaxprocs=1)],
+    ),
 }
